@@ -24,6 +24,10 @@ def run(ctx):
     res.rule("C05-R7", "closed world of rejections: every `return false` of addSegment is decided by a protocol reason (version, message type or "
                         "counter mismatch, declared length exceeding the frame, invalid transition) or by a size limit that only rejects reassembled "
                         "payloads above 65535 bytes (linear form over buffer size and declared length)")
+    res.rule("C05-R10", "each protocol case does its part (C17-R1): per path through the message loop, classified by what is known about the message "
+                         "(valid, segmented, first, accepted, assembled), the last table operation on the endpoint's key is the protocol's — a first segment "
+                         "opens a fresh entry, a rejected or completing continuation releases it, an accepted incomplete one leaves it — and first and "
+                         "continuation segments are not handed to each other's handler")
     res.not_decided += ["exactly-once delivery under every interleaving (history/schedule quantifier): only the structural premises are decided"]
     D.rule_segtype_subject(res, "C05-R5", m)
     D.rule_keyed_access(res, "C05-R1", m)
@@ -35,6 +39,7 @@ def run(ctx):
     D.rule_reject_reasons(res, "C05-R7", m)
     from rules import c03
     c03.rule_message_validator_exact(fb, res, "C05-R7", "message-validator:")  # a segment the message validator rejects never reaches addSegment
+    D.rule_loop_typestate(res, "C05-R10", m)
     n8 = D.rule_segment_ends_walk(res, "C05-R8", m)
     D.rule_segment_plumbing(res, "C05-R9", m)
     res.floor("C05-R8", 3, n8)
